@@ -508,6 +508,22 @@ func (c *Ctx) load(fr *Frame, p Ptr) Value {
 			}
 			return copyVal(cur)
 		}
+		if _, isStr := first.(Str); isStr && p.n <= 2048 {
+			all := true
+			for k := 0; k < p.n; k++ {
+				if _, ok := p.arr.elems[p.off+k].(Str); !ok {
+					all = false
+					break
+				}
+			}
+			if all {
+				var cur Value = p.arr.elems[p.off+p.n-1]
+				for k := p.n - 2; k >= 0; k-- {
+					cur = c.iteVal(c.tb.Eq(p.idx, c.tb.Int(int64(k), 64)), p.arr.elems[p.off+k], cur)
+				}
+				return cur
+			}
+		}
 		q := c.concPtr(fr, p, "load")
 		return copyVal(*q.p)
 	}
@@ -1109,6 +1125,16 @@ func (c *Ctx) lookup(fr *Frame, in *ssa.Lookup) Value {
 	if m != nil && c.raceEnabled(fr) {
 		c.raceAccess(fr, m, false)
 	}
+	if ks, isStr := c.get(fr, in.Index).(Str); isStr && m != nil && !m.symKeys {
+		if ks = c.normStr(ks); ks.b != nil {
+			if v, okT, done := c.mergedStrLookup(m, ks, c.zero(in.X.Type().Underlying().(*types.Map).Elem())); done {
+				if in.CommaOk {
+					return Tuple{v, okT}
+				}
+				return v
+			}
+		}
+	}
 	v, ok := c.mapGet(fr, m, c.get(fr, in.Index))
 	if !ok {
 		v = c.zero(in.X.Type().Underlying().(*types.Map).Elem())
@@ -1117,6 +1143,51 @@ func (c *Ctx) lookup(fr *Frame, in *ssa.Lookup) Value {
 		return Tuple{copyVal(v), c.tb.Bool(ok)}
 	}
 	return copyVal(v)
+}
+
+// mergedStrLookup: m[k] for a string key with symbolic bytes in a map whose keys are concrete strings
+// and whose values are scalars: one ite chain over the entries (no fork per entry, no case split
+// over the key's byte values). done=false when the map does not have that shape.
+func (c *Ctx) mergedStrLookup(m *Map, k Str, zero Value) (Value, *Term, bool) {
+	z, okZ := zero.(*Term)
+	if !okZ {
+		return nil, nil, false
+	}
+	for _, e := range m.entries {
+		if e.deleted {
+			continue
+		}
+		ek, isStr := e.k.(Str)
+		if !isStr || ek.b != nil {
+			return nil, nil, false
+		}
+		if _, isT := e.v.(*Term); !isT {
+			return nil, nil, false
+		}
+	}
+	tb := c.tb
+	kb, kn := c.strBytes(k), c.strLen(k)
+	cur, found := z, tb.Bool(false)
+	for i := len(m.entries) - 1; i >= 0; i-- {
+		e := m.entries[i]
+		if e.deleted {
+			continue
+		}
+		ek := e.k.(Str).c
+		if len(ek) > len(kb) {
+			continue
+		}
+		eq := tb.Eq(kn, tb.Int(int64(len(ek)), 64))
+		for j := 0; j < len(ek) && !eq.IsFalse(); j++ {
+			eq = tb.And(eq, tb.Eq(kb[j], c.byteConst(ek[j])))
+		}
+		if eq.IsFalse() {
+			continue
+		}
+		cur = tb.Ite(eq, e.v.(*Term), cur)
+		found = tb.Or(found, eq)
+	}
+	return cur, found, true
 }
 
 type rangeIter struct {
